@@ -730,3 +730,82 @@ func FuzzVerifC09Stream(f *testing.F) {
 		}
 	})
 }
+
+// ---- zero-length messages over a pipe ----
+
+// TestVerifC09EmptyMessage: a message whose encoding has no bytes (every field at its default) is a frame of four zero
+// bytes. Over an io.Pipe - what every peer's output is connected to - such a frame is returned at once as the empty
+// message, alone, between other messages, several in a row; a peer that goes quiet afterwards gives the ordinary
+// "timed out" error for the next read, and the read of the empty message itself never waits for more output.
+func TestVerifC09EmptyMessage(t *testing.T) {
+	en := verifkit.NewEnum(t, "C09EmptyMessage")
+	type row struct {
+		Frames []int `json:"payloadLengths"` // what the peer writes before it goes quiet (0 = the empty message)
+	}
+	const period = 400 * time.Millisecond
+	for _, frames := range [][]int{{0}, {0, 0}, {5, 0}, {0, 7}, {3, 0, 0, 9, 0}} {
+		r := row{frames}
+		pr, pw := io.Pipe()
+		go func() {
+			for i, n := range frames {
+				msg := &conformancev1.ClientCompatResponse{}
+				if n > 0 {
+					msg.TestName = strings.Repeat("x", n-2) // (field tag + length + n-2 bytes = n)
+				}
+				data, _ := proto.Marshal(msg)
+				if len(data) != n {
+					panic(fmt.Sprintf("frame %d: %d bytes, want %d", i, len(data), n))
+				}
+				var l [4]byte
+				binary.BigEndian.PutUint32(l[:], uint32(n))
+				_, _ = pw.Write(l[:])
+				if n > 0 {
+					_, _ = pw.Write(data)
+				}
+			}
+			// ... and nothing more: neither data nor a close
+		}()
+		var viol error
+		for i, n := range frames {
+			got := &conformancev1.ClientCompatResponse{TestName: "stale"}
+			start := time.Now()
+			done := make(chan error, 1)
+			go func() { done <- ReadDelimitedMessage(pr, got, "verif peer", period, vfMaxSize) }()
+			select {
+			case err := <-done:
+				switch {
+				case err != nil:
+					viol = verifkit.Violf("empty-message-error", "frame %d of %v (%d bytes): %v", i, frames, n, err)
+				case n == 0 && got.TestName != "":
+					viol = verifkit.Violf("empty-message-stale", "frame %d of %v is the empty message but the result still holds %q", i, frames, got.TestName)
+				case n > 0 && len(got.TestName) != n-2:
+					viol = verifkit.Violf("wrong-message", "frame %d of %v decoded wrongly", i, frames)
+				}
+			case <-time.After(10 * period):
+				viol = verifkit.Violf("empty-message-hang", "frame %d of %v (%d payload bytes) had been written completely, but reading it did not return within %v (timeout %v, waited since %v)", i, frames, n, 10*period, period, time.Since(start).Round(time.Millisecond))
+			}
+			if viol != nil {
+				break
+			}
+		}
+		if viol == nil {
+			// the peer is quiet now: the ordinary timeout
+			done := make(chan error, 1)
+			go func() { done <- ReadDelimitedMessage(pr, &conformancev1.ClientCompatResponse{}, "verif peer", period, vfMaxSize) }()
+			select {
+			case err := <-done:
+				if err == nil || !strings.Contains(err.Error(), "timed out") {
+					viol = verifkit.Violf("stall-text", "after %v the peer is quiet: expected a timeout error, got %v", frames, err)
+				}
+			case <-time.After(10 * period):
+				viol = verifkit.Violf("stall-hang", "after %v the peer is quiet: the read did not time out within %v", frames, 10*period)
+			}
+		}
+		_ = pw.Close()
+		en.Rec.Observe(r, []string{fmt.Sprintf("frames:%d", len(frames))}, true)
+		if viol != nil && en.Fail(r, viol) {
+			break
+		}
+	}
+	en.Done(true)
+}
